@@ -149,9 +149,128 @@ def _canon_types(draw, key):
     return dict(T=T, A=draw(st.sampled_from(nar)), B=draw(st.sampled_from(nar)))
 
 
+# ---- captured values: operands of body ops that are defined OUTSIDE of the body block
+#
+# recipe["env"]  = dict(fargs=[types], iters=[types] | None, outs=[types]) describes what surrounds the linalg.generic:
+#                  leading scalar function arguments (function block arguments #0..), an enclosing scf.for with iter_args
+#                  (loop block arguments #1.., #0 is the induction variable of type index), results of one "test.op" outside.
+# recipe["caps"] = [[kind, j], ...] the captured values the body may use: kind "f" = function argument #j, "i" = loop iter_arg j
+#                  (= loop block argument #j+1), "o" = result j of the outside op.
+# Operand refs: 0..n-1 block arguments, n..n+c-1 the captured values in the order of recipe["caps"], then the op results.
+
+CAP_KINDS = ("f", "i", "o")
+
+
+def cap_type(env, cap):
+    """Type string of a captured value, or None if the recipe is inconsistent."""
+    kind, j = cap
+    lst = {"f": env.get("fargs"), "i": env.get("iters"), "o": env.get("outs")}.get(kind)
+    if not isinstance(lst, list) or not isinstance(j, int) or not (0 <= j < len(lst)):
+        return None
+    return lst[j]
+
+
+def cap_block_index(cap):
+    """Index of the captured value as a block argument of its own (enclosing) block; None for an op result."""
+    kind, j = cap
+    return j if kind == "f" else j + 1 if kind == "i" else None
+
+
+def _shift_refs(ops, y, n, c):
+    """Renumber op-result refs after c captured values were inserted behind the n block arguments."""
+    sh = lambda r: r if r < n else r + c  # noqa: E731
+    return [[k, [sh(r) for r in refs], w] for k, refs, w in ops], sh(y)
+
+
+def _capture_aimed(draw, argw, ops, y):
+    """Replace uses of block argument #i by a value captured from an ENCLOSING block that sits at the same block-argument
+    index #i and has the same type (function argument #i, or loop iter_arg i-1). A matcher that identifies block arguments by
+    their index instead of by identity cannot tell the two apart."""
+    n = len(argw)
+    used = sorted({r for _, refs, _ in ops for r in refs if r < n})
+    m = draw(st.sampled_from([1, 1, 1, 2, len(used)]))
+    chosen = sorted(draw(st.lists(st.sampled_from(used), min_size=1, max_size=max(1, min(m, len(used))), unique=True)))
+    kinds = {i: (draw(st.sampled_from(["f", "i"])) if i >= 1 else "f") for i in chosen}
+    mimic = draw(st.booleans())  # the other slots of the enclosing block repeat the body's own argument types
+
+    def slot_type(idx):
+        return argw[idx] if (mimic and idx < n) else draw(st.sampled_from(WIDTHS))
+
+    env = dict(fargs=[], iters=None, outs=[])
+    if any(k == "f" for k in kinds.values()) or draw(st.integers(0, 3)) == 0:
+        L = max([i for i, k in kinds.items() if k == "f"], default=-1) + 1 + draw(st.sampled_from([0, 0, 1]))
+        env["fargs"] = [ty(argw[i]) if kinds.get(i) == "f" else ty(slot_type(i)) for i in range(min(L, 6))]
+    if any(k == "i" for k in kinds.values()) or draw(st.integers(0, 3)) == 0:
+        L = max([i for i, k in kinds.items() if k == "i"], default=0) + draw(st.sampled_from([0, 0, 1]))
+        env["iters"] = [ty(argw[j + 1]) if kinds.get(j + 1) == "i" else ty(slot_type(j + 1)) for j in range(min(L, 5))]
+    caps = [[kinds[i], i if kinds[i] == "f" else i - 1] for i in chosen]
+    ops, y = _shift_refs(ops, y, n, len(caps))
+    for ci, i in enumerate(chosen):
+        places = [(oi, pos) for oi, (_, refs, _) in enumerate(ops) for pos, r in enumerate(refs) if r == i]
+        if len(places) > 1 and draw(st.booleans()):
+            places = [draw(st.sampled_from(places))]
+        for oi, pos in places:
+            ops[oi][1][pos] = n + ci
+    return env, caps, ops, y
+
+
+def _capture_free(draw, argw, ops, y):
+    """Any surrounding, any captured values of widths that occur in the body, any type-correct uses."""
+    n = len(argw)
+    present = sorted(set(argw) | {w for _, _, w in ops})
+    wst = st.sampled_from(present + present + list(WIDTHS))
+    env = dict(fargs=[ty(draw(wst)) for _ in range(draw(st.integers(0, 4)))],
+               iters=[ty(draw(wst)) for _ in range(draw(st.integers(1, 3)))] if draw(st.booleans()) else None,
+               outs=[ty(draw(wst)) for _ in range(draw(st.integers(0, 2)))])
+    pool = [["f", j] for j in range(len(env["fargs"]))] + [["i", j] for j in range(len(env["iters"] or []))] + \
+           [["o", j] for j in range(len(env["outs"]))]
+    if not pool:
+        env["outs"] = [ty(draw(wst))]
+        pool = [["o", 0]]
+    caps = draw(st.lists(st.sampled_from(pool), min_size=1, max_size=min(3, len(pool)), unique_by=lambda c: tuple(c)))
+    capw = [width_of(cap_type(env, c)) for c in caps]
+    ops, y = _shift_refs(ops, y, n, len(caps))
+    widths = list(argw) + capw + [w for _, _, w in ops]
+    for k, refs, w in ops:
+        for pos in range(len(refs)):
+            if draw(st.integers(0, 2)) == 0:
+                fits = [n + ci for ci, cw in enumerate(capw) if (cw < w if k == "extsi" else cw == w)]
+                if fits:
+                    refs[pos] = draw(st.sampled_from(fits))
+    if draw(st.integers(0, 7)) == 0:
+        fits = [n + ci for ci, cw in enumerate(capw) if cw == widths[y]]
+        if fits:
+            y = draw(st.sampled_from(fits))
+    return env, caps, ops, y
+
+
 @st.composite
 def l2k_recipe(draw, tier="quick"):
-    mode = draw(st.sampled_from(["canonical", "near", "near", "near", "seq", "seq", "seq", "free", "free", "free", "free", "free"]))
+    if draw(st.integers(0, 3)) != 0:
+        return draw(_l2k_plain(tier))
+    # a quarter of the bodies use values defined outside of the body block
+    aim = draw(st.integers(0, 3)) != 0
+    # aimed captures start from a kernel's own wiring in half of the cases (the body a matcher is most likely to accept)
+    r = draw(_l2k_plain(tier, "canonical" if aim and draw(st.booleans()) else None))
+    argw = [width_of(t) for t in r["args"]]
+    ops = [[k, list(refs), width_of(t)] for k, refs, t in r["ops"]]
+    has_use = any(x < len(argw) for _, refs, _ in ops for x in refs)
+    if has_use and aim:
+        env, caps, ops, y = _capture_aimed(draw, argw, ops, r["yield"])
+        capmode = "aim"
+    else:
+        env, caps, ops, y = _capture_free(draw, argw, ops, r["yield"])
+        capmode = "free"
+    capw = [width_of(cap_type(env, c)) for c in caps]
+    r.update(ops=[[k, refs, ty(w)] for k, refs, w in ops], env=env, caps=caps, capmode=capmode)
+    r["yield"] = y
+    r["vecs"] = [v + e for v, e in zip(r["vecs"], draw(vectors_st(capw, 4)))]
+    return r
+
+
+@st.composite
+def _l2k_plain(draw, tier="quick", mode=None):
+    mode = mode or draw(st.sampled_from(["canonical", "near", "near", "near", "seq", "seq", "seq", "free", "free", "free", "free", "free"]))
     key = None
     if mode in ("canonical", "near"):
         key = draw(st.sampled_from(list(KSEQ)))
@@ -193,6 +312,36 @@ def l2k_exhaustive(tier):
                 ops = [[k, [a, b], ty(w)] for k, a, b in combo]
                 for y in (range(3 + nops) if nops < 3 else [2 + nops]):
                     yield dict(args=[ty(w)] * 3, ops=ops, **{"yield": y}, vecs=[], vseed=nops * 1000 + y, mode="exhaustive")
+    yield from l2k_capture_exhaustive(tier)
+
+
+def l2k_capture_exhaustive(tier):
+    """Every kernel's canonical body (one type assignment each; thorough: three) with every non-empty subset of its block
+    arguments replaced, at all their uses, by a value captured from an enclosing block at the SAME block-argument index and of the
+    SAME type: once all from the function's arguments, once all from the iter_args of an enclosing scf.for (subsets without
+    argument #0, which is the induction variable there); the other slots of the enclosing block repeat the body's argument types."""
+    types = [dict(T=8), dict(T=32)] if tier != "thorough" else [dict(T=8), dict(T=32), dict(T=64)]
+    mixed = [dict(T=32, A=8, B=8)] if tier != "thorough" else [dict(T=32, A=8, B=8), dict(T=64, A=8, B=16), dict(T=16, A=8, B=8)]
+    for key in KSEQ:
+        for tys in (types if key in ("mul", "add", "mac") else mixed):
+            argw, ops0, y0 = canonical_body(key, **tys)
+            n = len(argw)
+            used = sorted({r for _, refs, _ in ops0 for r in refs if r < n})
+            for mask_ in range(1, 1 << len(used)):
+                chosen = [u for b, u in enumerate(used) if mask_ >> b & 1]
+                for kind in ("f", "i"):
+                    if kind == "i" and chosen[0] == 0:
+                        continue
+                    env = dict(fargs=[ty(w) for w in argw] if kind == "f" else [],
+                               iters=[ty(w) for w in argw[1:]] if kind == "i" else None, outs=[])
+                    caps = [[kind, i if kind == "f" else i - 1] for i in chosen]
+                    ops, y = _shift_refs(ops0, y0, n, len(caps))
+                    for _, refs, _ in ops:
+                        for pos, r in enumerate(refs):
+                            if r in chosen:
+                                refs[pos] = n + chosen.index(r)
+                    yield dict(args=[ty(w) for w in argw], ops=[[k, refs, ty(w)] for k, refs, w in ops], **{"yield": y}, vecs=[],
+                               vseed=mask_ * 7 + n, mode="exhaustive", env=env, caps=caps, capmode="aim")
 
 
 def width_of(t: str) -> int:
@@ -218,11 +367,54 @@ def _generic_text(argtys, body_lines, shape="4", extra_attr="", in_func=False):
     return f'builtin.module {{\n{defs} = "test.op"() : () -> ({", ".join(mts)})\n{gen}\n}}'
 
 
+OUTS_TAG = "captured"  # attribute name marking the outside op whose results are captured
+
+
+def _env_text(argtys, body_lines, env):
+    """The linalg.generic inside a function with leading scalar arguments, optionally inside an scf.for with iter_args,
+    optionally behind a "test.op" whose results the body may use."""
+    n = len(argtys)
+    mts = [f"memref<4x{t}>" for t in argtys]
+    maps = ", ".join(["affine_map<(d0) -> (d0)>"] * n)
+    ins = f"ins({', '.join(f'%m{i}' for i in range(n - 1))} : {', '.join(mts[:-1])}) " if n > 1 else ""
+    bargs = ", ".join(f"%a{i} : {t}" for i, t in enumerate(argtys))
+    gen = [f'linalg.generic {{indexing_maps = [{maps}], iterator_types = ["parallel"]}} {ins}outs(%m{n - 1} : {mts[-1]}) {{',
+           f"^bb0({bargs}):"] + ["  " + l for l in body_lines] + ["}"]
+    fargs = [f"%f{i} : {t}" for i, t in enumerate(env.get("fargs") or [])] + [f"%m{i} : {t}" for i, t in enumerate(mts)]
+    L = ["builtin.module {", f"func.func public @f({', '.join(fargs)}) {{"]
+    outs = env.get("outs") or []
+    if outs:
+        L.append(f'{", ".join(f"%o{j}" for j in range(len(outs)))} = "test.op"() {{{OUTS_TAG}}} : () -> ({", ".join(outs)})')
+    iters = env.get("iters")
+    if iters is not None:
+        L += ["%lb = arith.constant 0 : index", "%ub = arith.constant 2 : index", "%st = arith.constant 1 : index"]
+        if iters:
+            k = len(iters)
+            L.append(f'{", ".join(f"%n{j}" for j in range(k))} = "test.op"() : () -> ({", ".join(iters)})')
+            L.append(f'{", ".join(f"%r{j}" for j in range(k))} = scf.for %iv = %lb to %ub step %st '
+                     f'iter_args({", ".join(f"%i{j} = %n{j}" for j in range(k))}) -> ({", ".join(iters)}) {{')
+            L += gen
+            L.append(f'scf.yield {", ".join(f"%i{j}" for j in range(k))} : {", ".join(iters)}')
+        else:
+            L.append("scf.for %iv = %lb to %ub step %st {")
+            L += gen
+        L.append("}")
+    else:
+        L += gen
+    L += ["func.return", "}", "}"]
+    return "\n".join(L)
+
+
 def l2k_text(r):
     argtys = r["args"]
     n = len(argtys)
     names = [f"%a{i}" for i in range(n)]
     tys = list(argtys)
+    caps = r.get("caps") or []
+    env = r.get("env") or {}
+    for c in caps:
+        names.append(f"%{c[0]}{c[1]}")
+        tys.append(cap_type(env, c))
     lines = []
     for k, refs, t in r["ops"]:
         v = f"%v{len(names)}"
@@ -233,6 +425,8 @@ def l2k_text(r):
         names.append(v)
         tys.append(t)
     lines.append(f"linalg.yield {names[r['yield']]} : {tys[r['yield']]}")
+    if r.get("env") is not None:
+        return _env_text(argtys, lines, env)
     return _generic_text(argtys, lines)
 
 
@@ -424,3 +618,109 @@ def dispatch_exhaustive(tier):
             for widths in combos:
                 yield dict(accs=[acc], body=dict(kind="kernel", kernel=kernel, types=[ty(w) for w in widths], wiring=list(range(k))),
                            shape="static", preset=None)
+
+
+# ------------------------------------------------------------------------------------------ sub 5: tosa.rescale [+ tosa.clamp]
+#
+# recipe: dict(in_ty, out_ty in {i8, i32}; zp_in, zp_out; zp_ty "i32" (constant tensors of i32, as upstream writes them) or
+#              "native" (of the input / output element type); mult=[m], shift=[s] (per-tensor: one entry each); shift_ty "i8"|"i32";
+#              consumer "none" (the rescale result goes straight to its user), "clamp" (tosa.clamp is its only user) or
+#              "clamp+use" (the clamp and one more user); clamp=[min, max] | None; dr (DOUBLE_ROUND); shape; xs; vseed)
+# The module is built from objects (xdsl.dialects.tosa), never parsed from text: xDSL 0.70 prints/parses tosa.rescale differently
+# from the pinned version, the op classes are the same.
+
+TOSA_SHAPES = {"static": [4], "dynamic": [-1, 8], "dynamic-inner": [2, -1]}
+TOSA_PARAMS = [  # (zp_in, zp_out, multiplier, shift)
+    (0, -128, 1085889731, 37),  # tests/filecheck/transforms/convert-tosa-to-kernel.mlir
+    (0, 0, 1140768826, 47),  # kernels/rescale/rescale_down.py
+    (3, -5, 1 << 30, 30),  # scale 1
+]
+
+
+def int_range(t):
+    w = width_of(t)
+    return -(1 << (w - 1)), (1 << (w - 1)) - 1
+
+
+@st.composite
+def tosa_recipe(draw, tier="quick"):
+    in_ty = draw(st.sampled_from(["i32", "i32", "i32", "i8"]))
+    out_ty = draw(st.sampled_from(["i8", "i8", "i8", "i32"]))
+    zp_ty = draw(st.sampled_from(["i32", "i32", "native"]))
+
+    def zp(t):
+        lo, hi = int_range(t if zp_ty == "native" else "i32")
+        return draw(st.one_of(st.integers(-128, 127), st.sampled_from([0, 0, -128, 127, lo, hi]), st.integers(lo, hi)))
+
+    zp_in, zp_out = zp(in_ty), zp(out_ty)
+    if draw(st.integers(0, 3)) == 0:
+        _, _, mult, shift = draw(st.sampled_from(TOSA_PARAMS))
+    else:
+        mult = draw(st.one_of(st.integers(1 << 30, (1 << 31) - 1), st.integers(1, 1 << 16), st.integers(0, (1 << 31) - 1),
+                              st.sampled_from([0, 1, 2, (1 << 30), (1 << 31) - 1]), st.integers(*I32)))
+        shift = draw(st.one_of(st.integers(0, 31), st.integers(30, 62), st.sampled_from([0, 1, 31, 32, 37, 62])))
+    consumer = draw(st.sampled_from(["none", "none", "none", "clamp", "clamp", "clamp", "clamp", "clamp+use"]))
+    clamp = None
+    if consumer != "none":
+        lo, hi = int_range(out_ty)
+        kind = draw(st.integers(0, 9))
+        if kind < 3:
+            clamp = [lo, hi]
+        elif kind < 8 or out_ty == "i8":
+            a, b = draw(st.integers(-128, 127)), draw(st.integers(-128, 127))
+            clamp = [min(a, b), max(a, b)]
+        else:
+            a, b = draw(st.integers(lo, hi)), draw(st.integers(lo, hi))
+            clamp = [min(a, b), max(a, b)]
+    return dict(in_ty=in_ty, out_ty=out_ty, zp_in=zp_in, zp_out=zp_out, zp_ty=zp_ty, mult=[mult], shift=[shift],
+                shift_ty=draw(st.sampled_from(["i8", "i32"])), consumer=consumer, clamp=clamp, dr=draw(st.booleans()),
+                shape=draw(st.sampled_from(["static", "static", "dynamic", "dynamic-inner"])),
+                xs=draw(st.lists(value_st(width_of(in_ty)), min_size=12, max_size=12)), vseed=draw(st.integers(0, (1 << 64) - 1)))
+
+
+def tosa_exhaustive(tier):
+    """Every in/out type pair x {no clamp, clamp to the full output range, clamp inside} x three parameter sets x rounding mode."""
+    for in_ty in ("i32", "i8"):
+        for out_ty in ("i8", "i32"):
+            for consumer, clamp in (("none", None), ("clamp", list(int_range(out_ty))), ("clamp", [-100, 100])):
+                for zi, zo, m, s in TOSA_PARAMS:
+                    for dr in (False, True):
+                        yield dict(in_ty=in_ty, out_ty=out_ty, zp_in=zi, zp_out=zo, zp_ty="i32", mult=[m], shift=[s], shift_ty="i32",
+                                   consumer=consumer, clamp=clamp, dr=dr, shape="static", xs=[], vseed=s)
+
+
+def tosa_module(r):
+    """builtin.module { %x = test.op; consts; tosa.rescale; [tosa.clamp]; test.op(users) } built from op objects."""
+    from xdsl.builder import Builder
+    from xdsl.dialects import tosa
+    from xdsl.dialects.builtin import BoolAttr, DenseIntOrFPElementsAttr, IntegerAttr, IntegerType, ModuleOp, TensorType, i1
+    from xdsl.dialects.test import TestOp
+
+    in_t, out_t = IntegerType(width_of(r["in_ty"])), IntegerType(width_of(r["out_ty"]))
+    i32 = IntegerType(32)
+    zin_t, zout_t = (in_t, out_t) if r["zp_ty"] == "native" else (i32, i32)
+    shape = TOSA_SHAPES[r["shape"]]
+
+    def const(t, vals):
+        return tosa.ConstOp(DenseIntOrFPElementsAttr.from_list(TensorType(t, (len(vals),)), list(vals)))
+
+    @Builder.implicit_region([])
+    def body(_):
+        x = TestOp(result_types=[TensorType(in_t, shape)])
+        zi, zo = const(zin_t, [r["zp_in"]]), const(zout_t, [r["zp_out"]])
+        m, s = const(i32, r["mult"]), const(IntegerType(width_of(r["shift_ty"])), r["shift"])
+        mode = tosa.RoundingMode.DOUBLE_ROUND if r["dr"] else tosa.RoundingMode.SINGLE_ROUND
+        res = tosa.RescaleOp(operands=[x.results[0], m, s, zi, zo], result_types=[TensorType(out_t, shape)],
+                             properties=dict(scale32=BoolAttr(True, i1), rounding_mode=tosa.RoundingModeAttr(mode),
+                                             per_channel=BoolAttr(False, i1), input_unsigned=BoolAttr(False, i1),
+                                             output_unsigned=BoolAttr(False, i1)))
+        last = res.results[0]
+        if r["consumer"] != "none":
+            c = tosa.ClampOp(operands=[last], result_types=[TensorType(out_t, shape)],
+                             properties=dict(min_val=IntegerAttr(r["clamp"][0], out_t), max_val=IntegerAttr(r["clamp"][1], out_t)))
+            if r["consumer"] == "clamp+use":
+                TestOp(operands=[last], attributes={"other_user": BoolAttr(True, i1)})
+            last = c.results[0]
+        TestOp(operands=[last], attributes={"final_user": BoolAttr(True, i1)})
+
+    return ModuleOp(body)
